@@ -6,13 +6,28 @@ from . import spec, readops
 
 
 def make(path, n, bs, q, rng=None, is2d=False, version=None, il=None, xl=None, z=None, n_arrays=2, irregular=False,
-         holes=0.2, data=None, dups=False):
+         holes=0.2, data=None, dups=False, n_header_blocks=2):
     """returns FileInfo with the expected symbolic provenance volume"""
     rng = rng or np.random.default_rng(0)
     lay = spec.Layout(n, bs, q, is2d=is2d)
     version = spec.version_encode(0, 2, 9, True) if version is None else version
+    il_given, xl_given = il is not None, xl is not None
     il = il or (int(rng.integers(-30, 300)), int(rng.choice([1, 2, 5, -1, -3])))
     xl = xl or (int(rng.integers(-30, 3000)), int(rng.choice([1, 3, 4, -2])))
+    # large-magnitude line numbers (survey numbering in the 10^5..10^9 range, near the int32 limits): a coordinate
+    # lookup that is not exact (tolerance, float32) only shows there
+    big = [100000, 123456, 1000003, 16777217, 2 ** 31 - 1 - 6 * max(n[0], n[1]), -(2 ** 31) + 6 * max(n[0], n[1]), -250000]
+    if not il_given and rng.random() < 0.3:
+        il = (int(rng.choice(big)), int(rng.choice([1, 2, -1, 5])) if abs(il[1]) > 5 else il[1])
+    if not xl_given and rng.random() < 0.3:
+        xl = (int(rng.choice(big)), int(rng.choice([1, 2, -2, 4])) if abs(xl[1]) > 4 else xl[1])
+    for ax_name, ax, cnt in (('il', il, n[0]), ('xl', xl, n[1])):
+        last = ax[0] + ax[1] * (cnt - 1)
+        if not (-2 ** 31 <= last < 2 ** 31):
+            if ax_name == 'il':
+                il = (ax[0] - ax[1] * (cnt - 1), ax[1])
+            else:
+                xl = (ax[0] - ax[1] * (cnt - 1), ax[1])
     z = z or (int(rng.integers(-100, 500)), int(rng.choice([4000, 2000, 1000, 500, 1001, 333])))
     if version <= spec.V_0_1_6 and z[1] % 1000:
         z = (z[0], 1000 * (z[1] // 1000 + 1))   # interval in whole milliseconds up to 0.1.6
@@ -53,10 +68,11 @@ def make(path, n, bs, q, rng=None, is2d=False, version=None, il=None, xl=None, z
     if dups and 181 in arrays:
         dupmap = {197: 181}
     spec.build_file(path, lay, version, il=il, xl=xl, z=z, arrays=arrays, consts=consts, dups=dupmap, data=data,
-                    tracecount=tracecount)
+                    tracecount=tracecount, n_header_blocks=n_header_blocks)
     fi = readops.FileInfo(lay, il=il, xl=xl, z=z, tracecount=tracecount, mask=mask,
                           volume=lay.provenance_volume() if data is None else None,
                           arrays=arrays, consts=consts, dups=dupmap)
     fi.path = path
     fi.version = version
+    fi.data_start = spec.DISK * n_header_blocks
     return fi
